@@ -2,7 +2,7 @@
 """Regenerates /verif/MANIFEST.json from the table below."""
 import json, sys
 
-TECH = "bounded symbolic execution of /repo's go/ssa with an SMT solver (z3) deciding every branch and assertion; counterexamples replayed natively"
+TECH = "bounded symbolic execution of /repo's go/ssa with an SMT solver (z3) deciding every branch and assertion; a sample of the unsat verdicts re-decided by cvc5 and z3 5.1.0; counterexamples replayed natively"
 
 CLAIMED = {
  "C01": ("§6 C01", "All 1-3 statement scripts of the template family (sources with repeated/aliased accounts, bounded/unbounded overdraft, caps, allotments, save) run through the public Parse/Run API on symbolic balances, amounts, caps and limits; the solver shows that replaying the returned postings never takes a non-exempt account below min(start, -granted overdraft), for every integer valuation.",
@@ -22,12 +22,12 @@ CLAIMED = {
  "C08": ("§6 C08", "save followed by sends (and interleavings) through the public API: flows equal the reference in which save lowers the visible balance to max(0, b-n) (never raising a negative balance); negative saves are rejected.",
          "<=2 saves (two assets) and <=2 sends; numbers unbounded; StaticStore plus exact / sparse / interned stores."),
  "C09": ("§6 C09", "For every 2-3 statement script of the family the harness runs the whole script and each statement alone on the balances left by the previous ones (postings actually returned + the save rule), all on symbolic balances; the solver shows the postings are element-wise identical, failures coincide in class, and metadata merges key-wise with last write winning.",
-         "13 statement kinds, scripts of 2-3 statements; numbers unbounded; variables do not read balances."),
+         "13 statement kinds, scripts of 2-3 statements, the pairs that can move @a without funds also on a store that has never heard of @a; numbers unbounded; variables do not read balances."),
  "C10": ("§6 C10", "Each script (balance()/overdraft()/meta() origins, saves, account variables, two assets) is run against five harness stores (exact, sparse, superset, static, interned) over one symbolic truth table inside a single symbolic path; results are asserted pairwise identical for every table, and the exact store asserts that @world is never requested.",
-         "43 (quick) / 51 (thorough) templates incl. scripts that read the balance of @world, a capped @world followed by another source and self-postings; <=4 accounts x 2 assets; stores returning nil maps are outside."),
+         "53 (quick) / 61 (thorough) hand-written templates incl. scripts that read the balance of @world, a capped @world followed by another source, self-postings and stores holding other spellings of the requested metadata key, plus 20 (quick) / ~100 (thorough) GENERATED source shapes (two-leaf trees with caps, overdrafts, allotments; allotments whose items are @world, unbounded accounts or lists); <=4 accounts x 2 assets; stores returning nil maps are outside."),
  "C11": ("§6 C11", "Four harness modes per script, all on symbolic balances: purity (write-confinement monitor over the VM heap + explicit comparison of the variables map and the store's balance/metadata maps), determinism (second run under every iteration order of the maps it ranges over), flags (no flag / gate flag / unknown flag), re-entrancy by reduction (two runs on one ParseResult write only objects they allocated; no package-level variable is written).",
-         "Goroutine interleavings are NOT modelled: re-entrancy is decided by write confinement (disjoint write sets cannot interfere); native replay of a confinement finding runs under the race detector. Per path one ranged map (thorough: two), each in turn, takes every order (maps > 3 entries: identity/reverse/rotation), the others insertion order. sync.Map/Once/Mutex/Pool/atomic are modelled sequentially. A fifth mode runs the same script before and after a run of another script (independence of process history)."),
- "C12": ("§6 C12", "Every reachable Go panic site on every explored path is a violation (API template families, arbitrary variable bytes per declared type through the symbolic regexp/SetString models, one trigger per error class, store failure injected at every call, nil store maps); errors must carry the class naming the cause and come with the zero result.",
+         "Goroutine interleavings are NOT modelled: re-entrancy is decided by write confinement (disjoint write sets cannot interfere); native replay of a confinement finding runs under the race detector. Per path one ranged map (thorough: two), each in turn, takes every order (maps > 3 entries: identity/reverse/rotation), the others insertion order. sync.Map/Once/Mutex/Pool/atomic are modelled sequentially. A fifth mode runs the same script before and after a run of another script (independence of process history); the answers mode lets a store keep what it handed out (metadata maps and, with an interned store, the numbers themselves) and finds it unchanged."),
+ "C12": ("§6 C12", "Every reachable Go panic site on every explored path is a violation (API template families, arbitrary variable bytes per declared type through the symbolic regexp/SetString models, one trigger per error class, store failure injected at every call incl. queries of 20 and 40 accounts, nil store maps); errors must carry the class naming the cause and come with the zero result.",
          "Variable texts <= 3 (quick) / 5 (thorough) arbitrary bytes; script families as C01/C03/C05/C08/C10."),
  "C13": ("§6 C13", "ParsePercentageRatio / parsePercentageRatio / parseRatio and ParsePortionSpecific executed symbolically on token texts of a fixed layout with EVERY digit symbolic: the result equals digits/10^(f+2) resp. N/D in base ten (cross-multiplied), variables agree with literals and are rejected exactly outside [0,1]; metadata round trip through two real scripts for all integers (numbers, monetaries), symbolic-byte assets and strings, accounts and a grid of portions, incl. the JSON form of transaction metadata: valid JSON that decodes to the stored text (monetaries whose asset contains a quote, a backslash, &<> or non-ASCII included).",
          "Digit counts bounded (quick 3+3, thorough 22); ratio-variable denominators concrete per case; portion round trips on concrete texts."),
@@ -35,13 +35,13 @@ CLAIMED = {
          "The ANTLR lexer/parser itself (termination, acceptance, rejection) is OUTSIDE the encoding: this check does not decide 'every input string'. Token stubs follow the stated ANTLR contract. By-product (direct execution, no solver verdict over texts): the real parser on a corpus of ~1000 valid, invalid and edited texts (non-ASCII, truncated after a newline, strings ending in a backslash, illegal characters) with rendering of every reported error."),
  "C15": ("§6 C15", "SCOPED to range arithmetic: tokenToRange and ctxToRange on tokens whose text is any valid UTF-8 of the layout (symbolic bytes) at symbolic positions span exactly the character count, children lie within parents and siblings do not overlap; Position.GtEq is the lexicographic total order and Range.Contains the closed interval, for all positions.",
          "Tree structure, literal values, associativity and layout/comment invariance depend on the ANTLR parse and are OUTSIDE the solver verdict; they are covered as a by-product by running the real parser on 26 generated scripts (expected tree built alongside the text) in 4-8 layouts each, one of them with block comments glued between all tokens. Known finding: a comment glued to an asset / number / ratio token changes the parse."),
- "C16": ("§6 C16", "analysis.CheckProgram executed in the VM on parser-produced trees: 13 statically valid templates get no error (literal portion numerators symbolic: accepted exactly when they sum to one); for name templates every declaration and every use takes every name of a pool (all deletions, duplications, renamings): unbound / duplicate / unused variables are reported exactly once at their token and nothing else is.",
+ "C16": ("§6 C16", "analysis.CheckProgram executed in the VM on parser-produced trees: 27 statically valid templates (incl. negative and zero literals wherever a number or an amount may stand) get no error (literal portion numerators symbolic: accepted exactly when they sum to one); for name templates every declaration and every use takes every name of a pool (all deletions, duplications, renamings): unbound / duplicate / unused variables are reported exactly once at their token and nothing else is (a variable mentioned only before its declaration counts as unused).",
          "Template lists are finite; names and types are finite choices concretised by forking; numerators are unbounded. 20 two-step sequences check that a valid script gets the same diagnostics after another text was analysed in the same process."),
  "C17": ("§6 C17", "CheckProgram then RunProgram inside one symbolic path for valid templates with up to one (thorough: two) mis-declared variable types over all six types, and 65 type-breaking edits (incl. self-referencing origins, misplaced remaining clauses, defects in sources listed after an unbounded one); whenever the checker reports no error the run (all integers as numbers/amounts, symbolic balances) does not fail with TypeError, UnboundVariable, UnboundFunction, BadArity or InvalidType; with no diagnostics at all, not with a send-all shape error either.",
          "Template lists are finite; non-numeric variable values take one representative each."),
- "C18": ("§6 C18", "SCOPED: on each tree the real parser produces for a text of the edit corpus (prefixes, token deletions/duplications, bracket edits, hand-written broken texts) CheckSource, GetSymbols, HoverOn and GotoDefinition run in the VM with the cursor position SYMBOLIC (every line/character) and the checker's map iteration orders symbolic: every reachable panic site is a violation, diagnostics start inside the document and do not end before they start, re-analysis yields the same diagnostics and symbols.",
+ "C18": ("§6 C18", "SCOPED: on each tree the real parser produces for a text of the edit corpus (prefixes, token deletions/duplications, bracket edits, insertions of tokens and of characters no token can contain, hand-written broken texts) CheckSource, GetSymbols, HoverOn and GotoDefinition run in the VM with the cursor position SYMBOLIC (every line/character) and the checker's map iteration orders symbolic: every reachable panic site is a violation, diagnostics start inside the document and do not end before they start, re-analysis yields the same diagnostics and symbols.",
          "The text dimension is a bounded corpus (text -> partial tree is ANTLR error recovery, outside the encoding); positions and iteration orders are quantified by the solver."),
- "C19": ("§6 C19", "lsp.Handle executed in the VM: ONE request (didOpen / didChange with 1-2 content changes / hover / definition / documentSymbol / other) from an ARBITRARY state satisfying the invariant 'each stored document = (latest text, analysis of it)' over 2 URIs x 3 texts, addressed to any of 3 URIs, cursor position symbolic: invariant preserved, only the addressed entry changes, exactly one publishDiagnostics with the fresh analysis of the last content change, query responses equal those of a fresh server that saw only the latest text. Navigation: at EVERY position inside a variable use hover names it and its type and definition is its declaration; builtin names show the function; elsewhere nothing.",
+ "C19": ("§6 C19", "lsp.Handle executed in the VM: ONE request (didOpen / didChange with 0-2 content changes / hover / definition / documentSymbol / other) from an ARBITRARY state satisfying the invariant 'each stored document = (latest text, analysis of it)' over 2 URIs (differing only in the case of one letter) x 3 texts, addressed to any of 3 URIs, cursor position symbolic: invariant preserved, only the addressed entry changes, exactly one publishDiagnostics with the fresh analysis of the last content change, query responses equal those of a fresh server that saw only the latest text. Navigation: at EVERY position inside a variable use hover names it and its type and definition is its declaration; builtin names show the function; elsewhere nothing.",
          "One inductive step covers histories of any length given the invariant. Texts from a 3-text alphabet; JSON and message framing are stubs/outside."),
  "C20": ("§6 C20", "SCOPED to the command functions: cmd.check on corpus files (exit status 1 exactly when an error-severity diagnostic exists; every diagnostic's position and message printed) and cmd.run through --raw, --stdin, file flags and four mixed combinations of them in JSON mode on symbolic balances and amounts (stdout is exactly the JSON of the library's result; on a library error exit 1 with the message), with os/fmt/json/io replaced by environment stubs in the VM; native replay uses real files, stdin and a child process.",
          "The process itself (cobra parsing, main's wrapper, the real exit status) is OUTSIDE. check() involves no symbolic numbers: there the solver only confirms path feasibility; run() quantifies over balances and amounts."),
